@@ -227,6 +227,10 @@ def run(chk, only=None):
     chk.extra['dateutil_contract_validated_on_pairs'] = n
     if bad:
         raise core.Inconclusive('relativedelta contract disagrees with dateutil: %r' % (bad[:3],))
+    n2, bad2 = D.validate_parse()
+    chk.extra['dateutil_parse_contract_validated_on_texts'] = n2
+    if bad2:
+        raise core.Inconclusive('ISO parse contract disagrees with dateutil: %r' % (bad2[:3],))
     hc.load_athlib(shims=SHIMS)
     import athlib.uka.agegroups  # noqa
     jobs = []
